@@ -76,8 +76,70 @@ def extent_small_scope(P, R):
     return None
 
 
-def kernel_rules(P, R):
+def rows_small_scope(P, R, tier):
+    """C13.a: `bounds_interleaved(values, offsets)` row i == finite extent of values[offsets[i]:offsets[i+1]] (NaN row for an element without vertices or
+    without finite coordinates), for every buffer of <= 2 vertices (3 in the thorough tier) over {NaN, 0, 1, +inf} and every way of cutting it into three
+    elements (empty elements included).  E-VEC; abstains when the kernel uses a construct it does not model."""
+    import itertools as _it
+    import veceval
+    nan, inf = float('nan'), float('inf')
+    dom = [nan, 0.0, 1.0, inf]
+    f = P.mods[BND].funcs.get('bounds_interleaved')
+    if f is None:
+        R.abstain('C13.a', (P.mods[BND].path, 'bounds_interleaved'), None, 'bounds_interleaved not found: per-element rows are computed by another idiom', construct='per-element rows small-scope equivalence')
+        return
+
+    def fin(vs):
+        vs = [v for v in vs if v == v and v not in (inf, -inf)]
+        return (min(vs), max(vs)) if vs else (nan, nan)
+
+    def same(a, b):
+        return (a != a and b != b) or a == b
+    nv = 3 if tier == 'thorough' else 2
+    bad, total, undec = [], 0, None
+    cuts = [(a, b) for a in range(0, 2 * nv + 1, 2) for b in range(a, 2 * nv + 1, 2)]
+    for vals in _it.product(dom, repeat=2 * nv):
+        vals = list(vals)
+        for a, b in cuts:
+            offs = [0, a, b, 2 * nv]
+            total += 1
+            ev = veceval.VecEval(P, f, {f.params[0]: list(vals), f.params[1]: list(offs)}, 3)
+            try:
+                ev.block(f.node.body)
+                got = None
+            except veceval.Returned as r_:
+                got = r_.value
+            except veceval.Unsupported as e_:
+                undec = str(e_)
+                break
+            except (IndexError, TypeError, ValueError):
+                got = 'error'
+            want = []
+            for i in range(3):
+                seg = vals[offs[i]:offs[i + 1]]
+                (x0, x1), (y0, y1) = fin(seg[0::2]), fin(seg[1::2])
+                want.append((x0, y0, x1, y1))
+            ok = isinstance(got, list) and len(got) == 3 and all(isinstance(r_, (list, tuple)) and len(r_) == 4 and all(isinstance(g, (int, float)) and same(float(g), w) for g, w in zip(r_, wr))
+                                                               for r_, wr in zip(got, want))
+            if not ok and len(bad) < 6:
+                bad.append({'values': [str(v) for v in vals], 'offsets': offs, 'got': str(got)[:120], 'want': str(want)[:120]})
+            elif not ok:
+                bad.append(None)
+        if undec:
+            break
+    if undec:
+        R.abstain('C13.a', f, None, f'bounds_interleaved uses a construct the small-scope evaluator does not model ({undec})', construct='per-element rows small-scope equivalence')
+        return
+    R.count('orderings', total)
+    R.exhaustive_sites[f'C13.a per-element rows: buffers of <= {nv} vertices over {{NaN, 0, 1, +inf}} x all cuts into 3 elements'] = True
+    R.check(not bad, 'C13.a', f, None, f'bounds_interleaved row i == finite extent of element i, NaN row for an element without (finite) vertices ({total} buffer x cut cases)',
+            f'bounds_interleaved differs from the per-element finite extent on {len(bad)} of {total} cases, e.g. {[b for b in bad if b][:2]}', construct='per-element rows small-scope equivalence',
+            counterexamples=[b for b in bad if b][:4])
+
+
+def kernel_rules(P, R, tier='quick'):
     undecided = extent_small_scope(P, R)
+    rows_small_scope(P, R, tier)
     for name in ('total_bounds_interleaved', 'total_bounds_interleaved_1d'):
         f = P.func(BND, name)
         ups = 0
@@ -167,7 +229,7 @@ def coverage(P, R, f):
 def run(P, R, tier):
     R.assume('S1: Arrow ListArray buffers [v0,o0,...,data]; array.offset/len describe the level-0 window only; null slots of fixed-width arrays hold arbitrary bytes')
     R.assume('S2: coordinate index 2m is x_m, 2m+1 is y_m; S3: boxes are (x0, y0, x1, y1)')
-    kernel_rules(P, R)
+    kernel_rules(P, R, tier)
     # C13.i (seed S11: `ufunc.reduceat(a, starts)` returns a[starts[k]] for an EMPTY segment, not the identity): a per-element reduction over
     # offset-delimited segments must repair the rows of elements without vertices, which otherwise receive the next element's first vertex as their box
     R.assume('S11: numpy ufunc.reduceat yields a[start] (not the reduction identity) for a segment of length 0')
